@@ -316,6 +316,15 @@ def check_generator(ctx, case):
             ctx.unexpected(o, name)
             continue
         got = [float(x) for x in o.value]
+        # what the caller does to the returned array afterwards (edges shifted to bin centres in place) is the caller's business:
+        # the next request with the same arguments returns the grid again
+        try:
+            o.value += hf / 2
+        except Exception:  # noqa: BLE001 - read-only or not an array: nothing to check
+            pass
+        o_again = call(f, sf, ef, hf)
+        if o_again.ok and [float(x) for x in o_again.value] != got:
+            ctx.violation(name + "_second_request_returns_what_the_caller_did_to_the_first", {"first": got[:3], "second": [float(x) for x in o_again.value][:3]})
         if len(got) != n:
             ctx.violation(name + "_wrong_length", {"got": len(got), "want": n, "first": got[:3]})
         elif got != want:
